@@ -31,26 +31,27 @@ def faces_of_mesh(m):
     return [P[list(f)] for f in m.faces]
 
 
-def same_face(a, b, tol=1e-9):
-    """equal up to cyclic rotation; positions within tol (chord)."""
+def same_face(a, b, tol=1e-9, either=False):
+    """equal up to cyclic rotation (and, if ``either``, traversal direction); positions within tol (chord)."""
     if len(a) != len(b):
         return False
     n = len(a)
     if n == 0:
         return True
-    for k in range(n):
-        if np.all(np.linalg.norm(np.roll(b, -k, axis=0) - a, axis=1) <= tol):
-            return True
+    for bb in ((b, b[::-1]) if either else (b,)):
+        for k in range(n):
+            if np.all(np.linalg.norm(np.roll(bb, -k, axis=0) - a, axis=1) <= tol):
+                return True
     return False
 
 
-def compare(got, want, tol=1e-9, ordered=True):
+def compare(got, want, tol=1e-9, ordered=True, either=False):
     """returns None if the face lists agree, else a message."""
     if len(got) != len(want):
         return "n_face %d, expected %d" % (len(got), len(want))
     if ordered:
         for i, (a, b) in enumerate(zip(got, want)):
-            if not same_face(a, b, tol):
+            if not same_face(a, b, tol, either):
                 return "face %d: corners %s, expected %s (up to rotation)" % (i, _fmt(a), _fmt(b))
         return None
     left = list(range(len(want)))
